@@ -42,7 +42,12 @@ RULE = (
     "time under another path (other program ids) and all cold results compared. Histories: all sequences of length <= L over the "
     "alphabet (+ [a; d], [d; a] and, for L >= 3, [a; d; b] for every call a, b and every call d = a call_other to f issued at the "
     "maximum call depth, so that the callee's frame raises 'Too deep recursion' inside apply_low; after every history the apply "
-    "cache is cleared and the reference count of every name string must be back at its cold value), plus breadth-first over distinct apply-cache contents (every content x every call) to depth 8 (2-entry cache: the "
+    "cache is cleared and the reference count of every name string must be back at its cold value; --extra: six more calls x on the "
+    "most derived program: call_other with the path of the loaded blueprint, with the path of a copy of the program that call_other has to "
+    "load first (unloaded again before every history), on ({blueprint, clone}), on ({blueprint, unloaded path}), driver apply of a "
+    "function with 24 locals, and the same apply with the value stack filled so that only the callee's locals do not fit "
+    "('Stack overflow' inside apply_low's fill of the cache slot): cold x, all pairs [x; y] (level 1), plus [a; x], [x; a] for the calls a "
+    "of f on the most derived program (L = 2) or every call a (L >= 3) (level 2)), plus breadth-first over distinct apply-cache contents (every content x every call) to depth 8 (2-entry cache: the "
     "content space closes, counter elements_whose_cache_state_space_closed) or 3 (2048 entries). Salts: program-id parity x "
     "name-string allocation order (function tables are sorted by string address). bin parts: every set written to disk, "
     "compiled with #pragma save_binary, destructed, loaded again from the saved binaries (wrap of load_binary counts them), cold "
@@ -98,16 +103,16 @@ def run(ck):
         return _enum(exe, args, tag, **kw)
     ck.enum = enum
     if ck.tier == "quick":
-        ck.enum(ex["h_c07_small_plain"], ["--len=2", "--prune-depth=8", "--salts=1", "--no-compress=1"], "small-l2", batch=1, deadline_s=70, timeout_ms=T)
-        ck.enum(ex["h_c07_small"], ["--len=1", "--salts=1", "--deep=0"], "small-l1-asan", batch=1, deadline_s=60, timeout_ms=T)
-        ck.enum(ex["h_c07_full_plain"], ["--len=2", "--salts=1", "--no-compress=1"], "full-l2", batch=1, deadline_s=45, timeout_ms=T)
-        ck.enum(ex["h_c07_small"], ["--len=1", "--salts=1", "--bin=1", "--deep=0"], "bin-l1", batch=1, deadline_s=55, timeout_ms=T)
+        ck.enum(ex["h_c07_small_plain"], ["--len=2", "--prune-depth=8", "--salts=1", "--no-compress=1", "--extra=1"], "small-l2", batch=1, deadline_s=70, timeout_ms=T)
+        ck.enum(ex["h_c07_small"], ["--len=1", "--salts=1", "--deep=0", "--extra=0"], "small-l1-asan", batch=1, deadline_s=50, timeout_ms=T)
+        ck.enum(ex["h_c07_full_plain"], ["--len=2", "--salts=1", "--no-compress=1", "--extra=0"], "full-l2", batch=1, deadline_s=42, timeout_ms=T)
+        ck.enum(ex["h_c07_small"], ["--len=1", "--salts=1", "--bin=1", "--deep=0", "--extra=0"], "bin-l1", batch=1, deadline_s=50, timeout_ms=T)
     else:
-        ck.enum(ex["h_c07_small"], ["--len=2", "--prune-depth=8", "--salts=4"], "small-l2-s4", batch=1, deadline_s=500, timeout_ms=T)
-        ck.enum(ex["h_c07_small_plain"], ["--len=3", "--salts=1", "--no-compress=1"], "small-l3", batch=1, deadline_s=800, timeout_ms=T)
-        ck.enum(ex["h_c07_full_plain"], ["--len=2", "--salts=4", "--no-compress=1"], "full-l2-s4", batch=1, deadline_s=200, timeout_ms=T)
-        ck.enum(ex["h_c07_full_plain"], ["--len=0", "--prune-depth=3", "--salts=1", "--no-compress=1"], "full-bfs3", batch=1, deadline_s=400, timeout_ms=T)
-        ck.enum(ex["h_c07_small"], ["--len=2", "--prune-depth=8", "--salts=4", "--bin=1"], "bin-l2-s4", batch=1, deadline_s=500, timeout_ms=T)
+        ck.enum(ex["h_c07_small"], ["--len=2", "--prune-depth=8", "--salts=4", "--extra=2"], "small-l2-s4", batch=1, deadline_s=500, timeout_ms=T)
+        ck.enum(ex["h_c07_small_plain"], ["--len=3", "--salts=1", "--no-compress=1", "--extra=2"], "small-l3", batch=1, deadline_s=800, timeout_ms=T)
+        ck.enum(ex["h_c07_full_plain"], ["--len=2", "--salts=4", "--no-compress=1", "--extra=1"], "full-l2-s4", batch=1, deadline_s=200, timeout_ms=T)
+        ck.enum(ex["h_c07_full_plain"], ["--len=0", "--prune-depth=3", "--salts=1", "--no-compress=1", "--extra=0"], "full-bfs3", batch=1, deadline_s=400, timeout_ms=T)
+        ck.enum(ex["h_c07_small"], ["--len=2", "--prune-depth=8", "--salts=4", "--bin=1", "--extra=1"], "bin-l2-s4", batch=1, deadline_s=500, timeout_ms=T)
     ck.finish(_cov(ck), assumptions=ASSUME)
 
 
